@@ -786,6 +786,30 @@ impl Prop for C20 {
         }
         x.count("probe.archive_verified");
 
+        // ---- a second builder at the same path must be refused and must leave the archive alone
+        if case.hash_seed % 3 == 0 {
+            x.begin_op(n_ops + 3);
+            let r = x.sut(|| Builder::new_archive_unnamed(path.clone()).map(|_| ()));
+            match r {
+                Err(p) => x.violate("C20:panic", format!("Builder::new_archive_unnamed on an existing path panicked: {p}")),
+                Ok(Ok(())) => x.violate("C20:existing-archive-overwritten", "a second builder was created on the path of an existing archive".into()),
+                Ok(Err(_)) => {
+                    x.count("probe.second_builder_refused");
+                    let name = case.name.clone();
+                    let pass = x.sut(|| -> anyhow::Result<Pass> {
+                        let mut a = Artifact::from_oci_archive(&path)?;
+                        Ok(verify(&mut a, &model, &name, false))
+                    });
+                    match pass {
+                        Ok(Ok(p)) if p.diffs.is_empty() && p.errors.is_empty() => {}
+                        Ok(Ok(p)) => x.violate("C20:existing-archive-damaged", format!("after a refused second builder the archive reads differently: {:?} {:?}", p.diffs.first(), p.errors.first())),
+                        Ok(Err(e)) => x.violate("C20:existing-archive-damaged", format!("after a refused second builder the archive can no longer be opened: {e:#}")),
+                        Err(p) => x.violate("C20:panic", p),
+                    }
+                }
+            }
+        }
+
         // ---- read under faults: Err or the model's content
         if case.faults.iter().any(|f| f.op == n_ops + 1) {
             x.begin_op(n_ops + 1);
@@ -940,6 +964,6 @@ impl Prop for C20 {
         vec!["libc read/write/open/close (fault plan applied, then the real call)", "wall clock (simulated, jumped by the schedule)", "OS randomness (seeded)"]
     }
     fn required_probes(&self, _t: Tier) -> Vec<&'static str> {
-        vec!["fault.enospc", "fault.eio_read", "fault.short_write", "fault.eintr_write", "probe.foreign_image_case", "probe.archive_verified", "probe.dir_route_verified", "probe.builder_err_after_hard_fault", "probe.read_err_after_hard_fault", "sys.clock_gettime", "sys.write", "sys.read"]
+        vec!["fault.enospc", "fault.eio_read", "fault.short_write", "fault.eintr_write", "probe.foreign_image_case", "probe.archive_verified", "probe.dir_route_verified", "probe.second_builder_refused", "probe.builder_err_after_hard_fault", "probe.read_err_after_hard_fault", "sys.clock_gettime", "sys.write", "sys.read"]
     }
 }
